@@ -37,6 +37,7 @@ type Mut struct {
 	Off  int    `json:"off,omitempty"`
 	Bit  int    `json:"bit,omitempty"`
 	Mask int    `json:"mask,omitempty"` // subset: bit i set = archive file i deleted
+	Raw  []byte `json:"raw,omitempty"`  // raw: the file's new content (coverage-guided stage)
 }
 
 // Case is one state.
@@ -199,6 +200,8 @@ func (w *world) apply(m Mut) map[string][]byte {
 			c[m.Off%len(d)] ^= 1 << uint(m.Bit%8)
 			out[name] = c
 		}
+	case "raw":
+		out[name] = m.Raw
 	case "garbage":
 		out[name] = garbage(len(d), uint64(m.Off)+5)
 	case "zeros":
@@ -345,10 +348,7 @@ func (w *world) check(c Case) (msg, key string, parsed bool) {
 			}
 			// intact recovery blocks by the tolerant reference scan
 			exps := map[uint32]bool{}
-			for n, d := range arch {
-				if n == "set.par2" {
-					continue
-				}
+			for _, d := range arch {
 				for _, p := range par2ref.ScanTolerant(d) {
 					if p.Type == par2ref.TypeRecvSlic && p.SetID == w.setID {
 						e, blk, _ := par2ref.ParseRecovery(p.Body)
@@ -393,12 +393,19 @@ func (w *world) check(c Case) (msg, key string, parsed bool) {
 					okData++
 				}
 			}
+			// a volume's content is intact when everything the control hash covers (from 0x20) is unchanged;
+			// the generating-client bits of the version field (bytes 12..15) carry no data.  Counted: the distinct
+			// original volume contents present in any file (an upper bound on what can be usable).
 			okVol := 0
-			for n, d := range arch {
-				// a volume's content is intact when everything the control hash covers (from 0x20) is unchanged;
-				// the generating-client bits of the version field (bytes 12..15) carry no data
-				if n != "set.par" && len(d) == len(w.archData[n]) && len(d) >= 0x20 && bytes.Equal(d[0x20:], w.archData[n][0x20:]) {
-					okVol++
+			for vn, vd := range w.archData {
+				if vn == "set.par" {
+					continue
+				}
+				for _, d := range arch {
+					if len(d) == len(vd) && len(d) >= 0x20 && bytes.Equal(d[0x20:], vd[0x20:]) {
+						okVol++
+						break
+					}
 				}
 			}
 			fc := vr.FileCounts
@@ -673,6 +680,9 @@ func TestCheck(t *testing.T) {
 	defer rec.Finish(t)
 
 	if cfg.Replay != "" {
+		if rec.ReplayFuzz(cfg.Replay, fuzzOracles) {
+			return
+		}
 		var c Case
 		if _, err := run.LoadReplay(cfg.Replay, &c); err != nil {
 			t.Fatal(err)
@@ -728,6 +738,9 @@ func TestCheck(t *testing.T) {
 		return true
 	}
 	for _, f := range cfg.RegressFiles() {
+		if cfg.Shard == 0 && rec.ReplayFuzz(f, fuzzOracles) {
+			continue
+		}
 		var c Case
 		if _, err := run.LoadReplay(f, &c); err == nil && cfg.Shard == 0 {
 			if w, err := newWorld(c.Base); err == nil {
